@@ -29,6 +29,7 @@ class Work:
         self.n += 1
         return self.sub('%s%d' % (prefix, self.n))
     def close(self):
+        if os.environ.get('VERIF_KEEP_WORK'): return      # dev: keep the generated files of a run
         shutil.rmtree(self.root, ignore_errors=True)
 
 def parse_output(text):
